@@ -18,6 +18,8 @@ pub struct Profile {
     pub multi_variant: bool,
     /// commands with fixed printable output (needed when scripts are executed)
     pub exec_cmds: bool,
+    /// commands are probes that log their arguments (C17); implies exec_cmds
+    pub probe_cmds: bool,
     /// literals inside one word are prefix-free and disjoint from command candidates (C01's domain)
     pub prefix_free_words: bool,
     /// never the same literal text twice in a grammar with different labels; distinct literals per Alt
@@ -41,6 +43,7 @@ impl Profile {
             builtins: false,
             multi_variant: true,
             exec_cmds: false,
+            probe_cmds: false,
             prefix_free_words: false,
             unique_points: false,
             descriptions: false,
@@ -59,6 +62,7 @@ impl Profile {
             builtins: true,
             multi_variant: true,
             exec_cmds: false,
+            probe_cmds: false,
             prefix_free_words: false,
             unique_points: false,
             descriptions: true,
@@ -106,6 +110,24 @@ fn exec_cmd_pool() -> Vec<CmdSpec> {
         mk("echo zed", &[("zed", None)]),
         mk("true", &[]),
         mk("printf '%s\\n' u1 u22 u333", &[("u1", None), ("u22", None), ("u333", None)]),
+    ]
+}
+
+pub fn probe_text(k: usize) -> String {
+    format!("__cgv_probe {k} \"$@\"")
+}
+
+/// probes: log (id, argc, $1, $2) and print fixed lines, among them candidates with blanks, with
+/// tab-separated descriptions, and an empty list
+pub fn probe_cmd_pool() -> Vec<CmdSpec> {
+    let mk = |k: usize, lines: &[(&str, Option<&str>)]| CmdSpec { text: probe_text(k), lines: lines.iter().map(|(a, b)| (a.to_string(), b.map(|x| x.to_string()))).collect() };
+    vec![
+        mk(0, &[("p0a", None), ("p0b", None)]),
+        mk(1, &[("q1", Some("descr one")), ("q2x", Some("descr two"))]),
+        mk(2, &[("two words", None), ("solo", None)]),
+        mk(3, &[]),
+        mk(4, &[("r4", None), ("s5x", None), ("t6 spaced out", Some("with descr"))]),
+        mk(5, &[("u7", None)]),
     ]
 }
 
@@ -164,7 +186,13 @@ pub fn make_vocab(s: &mut Src, p: &Profile) -> Vocab {
         let d = if p.descriptions && s.chance(3, 8) { Some(s.pick(DESCRS).to_string()) } else { None };
         descr_of.entry(t.to_string()).or_insert(d);
     }
-    let pool = if p.exec_cmds { exec_cmd_pool() } else { plain_cmd_pool() };
+    let pool = if p.probe_cmds {
+        probe_cmd_pool()
+    } else if p.exec_cmds {
+        exec_cmd_pool()
+    } else {
+        plain_cmd_pool()
+    };
     let nc = 1 + s.below(3);
     let mut cmds: Vec<CmdSpec> = vec![];
     for _ in 0..nc {
@@ -556,8 +584,13 @@ impl<'a, 's> Gen<'a, 's> {
             }
             3 => self.cmd(),
             4 => {
-                let n = 2;
-                E::Fb((0..n).map(|_| self.closed_group(depth - 1)).collect())
+                let a = self.closed_group(depth - 1);
+                let b = self.closed_group(depth - 1);
+                if self.p.unique_points && a == b {
+                    // the same item in two || branches is C09's region
+                    return a;
+                }
+                E::Fb(vec![a, b])
             }
             _ => self.defined_ref(true).unwrap_or_else(|| self.word_lit()),
         }
